@@ -38,7 +38,8 @@ class Gen:
         if k < 0.5:
             return ("bin", self.expr(scopes, depth - 1, allow_write, False), self.expr(scopes, depth - 1, allow_write, False))
         if k < 0.6:
-            return ("un", self.expr(scopes, depth - 1, allow_write, False))
+            # rendered as a cast half of the time; an assignment expression is typed directly under a cast
+            return ("un", self.expr(scopes, depth - 1, allow_write, self.r.random() < 0.5), self.r.random() < 0.5)
         writable = [n for n, f in vis.items() if not f]
         finals = [n for n, f in vis.items() if f]
         if allow_write and self.inject and self.injected is None and finals and r.random() < 0.3:
@@ -181,6 +182,8 @@ def rex(t):
     if k == "as":
         return "(%s = %s)" % (t[1], rex(t[2]))
     if k == "un":
+        if (len(t) > 2 and t[2]) or t[1][0] == "as":
+            return "((int) %s)" % rex(t[1])
         return "(-%s)" % rex(t[1])
     if k == "bin":
         return "(%s + %s)" % (rex(t[1]), rex(t[2]))
